@@ -472,4 +472,7 @@ def run(chk):
             chk.ob("C20.K2a.R3:no_std-slot", "without std the slot is permanently the constant runtime of five Empty components", nostd)
         except SystemExit as e:
             chk.fail("C20.K2a", "emit_core --no-default-features compiles", str(e))
+    # the components seen through the slot are the winner's: the erased / wrapped views forward every method to it
+    common.wrapper_family_rule(chk, P, "C20", "emit_core::rng::Rng", 4, synonyms={"fill": ("dispatch_gen",)})
+    common.wrapper_family_rule(chk, P, "C20", "emit_core::clock::Clock", 4)
     return chk
